@@ -47,6 +47,7 @@ const baseTime = 1600000000 // multiple of 100; slots are baseTime + 10*k
 type ingestRec struct {
 	w, j       int
 	slot       int
+	span       int // number of 10 s slots the upload covers (0 is dumped as 1)
 	start, end int64 // monotonic ns since the run began
 }
 
@@ -98,9 +99,13 @@ func sharedName(in Input) string {
 }
 
 func readShared(st *storage.Storage, key *storage.Key, t0 time.Time, nslots int) readRec {
+	return readRange(st, key, t0, 0, nslots)
+}
+
+func readRange(st *storage.Storage, key *storage.Key, t0 time.Time, fromSlot, toSlot int) readRec {
 	var rr readRec
 	rr.start = int64(time.Since(t0))
-	out, err := st.Get(&storage.GetInput{StartTime: time.Unix(baseTime, 0), EndTime: time.Unix(baseTime+int64(nslots)*10, 0), Key: key})
+	out, err := st.Get(&storage.GetInput{StartTime: time.Unix(baseTime+int64(fromSlot)*10, 0), EndTime: time.Unix(baseTime+int64(toSlot)*10, 0), Key: key})
 	rr.end = int64(time.Since(t0))
 	if err != nil || out == nil || out.Tree == nil {
 		rr.nilOut = true
@@ -130,12 +135,17 @@ func ingestProfile(w, j int) map[string]uint64 {
 }
 
 func put(st *storage.Storage, key *storage.Key, slot int, stacks map[string]uint64) error {
+	return putSpan(st, key, slot, 1, stacks)
+}
+
+// an upload covering span slots; every count is multiplied by span so that each slot's share is the given count
+func putSpan(st *storage.Storage, key *storage.Key, slot, span int, stacks map[string]uint64) error {
 	t := tree.New()
 	for s, v := range stacks {
-		t.Insert([]byte(s), v)
+		t.Insert([]byte(s), v*uint64(span))
 	}
 	from := int64(baseTime + slot*10)
-	return st.Put(&storage.PutInput{StartTime: time.Unix(from, 0), EndTime: time.Unix(from+10, 0), Key: key, Val: t,
+	return st.Put(&storage.PutInput{StartTime: time.Unix(from, 0), EndTime: time.Unix(from+int64(span)*10, 0), Key: key, Val: t,
 		SpyName: "gospy", SampleRate: 100, Units: "samples", AggregationType: "sum"})
 }
 
@@ -180,6 +190,15 @@ func coqIDs(xs []string) string { // "w_j=count" -> (w, j, count)
 	return lib.List(items)
 }
 
+func coqIngest(g ingestRec) string {
+	span := g.span
+	if span < 1 {
+		span = 1
+	}
+	return fmt.Sprintf("{| ig_w := %s; ig_j := %s; ig_slot := %s; ig_span := %d; ig_start := %s; ig_end := %s |}",
+		lib.Nat(g.w), lib.Nat(g.j), lib.Nat(g.slot), span, lib.Z(g.start), lib.Z(g.end))
+}
+
 func coqRead(r readRec) string {
 	tl := make([]string, len(r.timeline))
 	for i, v := range r.timeline {
@@ -207,11 +226,30 @@ func runConcurrent(in Input) lib.Result {
 	nIng := in.Writers * in.PerWriter
 	nslots := nIng + 2
 	// slot of ingest (w, j): all different (one tree per ingest at depth 0, aggregated above), or all equal
-	slotOf := func(w, j int) int {
+	var slotOf func(w, j int) int
+	slotOf = func(w, j int) int {
 		if in.SameSlot {
 			return 1
 		}
 		return 1 + w*in.PerWriter + j
+	}
+	// stream "straddle": every upload covers 2-3 slots across the 100 s boundary at slot 20; renders cover
+	// [boundary-20 s, boundary+100 s): two 10 s buckets and the aggregated 100 s bucket (made present by two earlier uploads)
+	const bs = 20
+	straddle := in.Stream == "straddle"
+	rdFrom, rdTo := 0, nslots
+	spanOf := func(w, j int) int { return 1 }
+	if straddle {
+		in.ColdStart = true
+		rdFrom, rdTo = bs-2, bs+10
+		for _, sl := range []int{bs + 3, bs + 5} {
+			if err := put(st, shared, sl, map[string]uint64{"pre": 4}); err != nil {
+				return lib.Result{Crash: "pre-Put: " + err.Error()}
+			}
+		}
+		kinds := [][2]int{{bs - 2, 3}, {bs - 1, 2}, {bs - 1, 3}}
+		slotOf = func(w, j int) int { return kinds[(w*7+j*3+int(in.Seed%3))%3][0] }
+		spanOf = func(w, j int) int { return kinds[(w*7+j*3+int(in.Seed%3))%3][1] }
 	}
 	if !in.ColdStart {
 		// the shared series exists before anyone reads it
@@ -238,9 +276,9 @@ func runConcurrent(in Input) lib.Result {
 				if err := put(st, own, j, map[string]uint64{"own": 1}); err != nil {
 					putErr.Store(err.Error())
 				}
-				rec := ingestRec{w: w, j: j, slot: slotOf(w, j)}
+				rec := ingestRec{w: w, j: j, slot: slotOf(w, j), span: spanOf(w, j)}
 				rec.start = int64(time.Since(t0))
-				err := put(st, shared, rec.slot, ingestProfile(w, j))
+				err := putSpan(st, shared, rec.slot, rec.span, ingestProfile(w, j))
 				rec.end = int64(time.Since(t0))
 				if err != nil {
 					putErr.Store(err.Error())
@@ -262,7 +300,7 @@ func runConcurrent(in Input) lib.Result {
 			defer rwg.Done()
 			rq := rand.New(rand.NewSource(in.Seed + int64(q)*104729 + 1))
 			for atomic.LoadInt32(&writersDone) == 0 {
-				rd := readShared(st, shared, t0, nslots)
+				rd := readRange(st, shared, t0, rdFrom, rdTo)
 				if len(reads[q]) < maxReads {
 					reads[q] = append(reads[q], rd)
 				} else if in.Stream != "delete" {
@@ -311,7 +349,7 @@ func runConcurrent(in Input) lib.Result {
 	dwg.Wait()
 
 	// quiescent: all ingests have returned
-	final := readShared(st, shared, t0, nslots)
+	final := readRange(st, shared, t0, rdFrom, rdTo)
 	ownTotals := make([]string, in.Writers)
 	for w := 0; w < in.Writers; w++ {
 		own, _ := storage.ParseKey(fmt.Sprintf("own{w=%d}", w))
@@ -328,8 +366,7 @@ func runConcurrent(in Input) lib.Result {
 	ingTerms := []string{}
 	for w := range ingests {
 		for _, g := range ingests[w] {
-			ingTerms = append(ingTerms, fmt.Sprintf("{| ig_w := %s; ig_j := %s; ig_slot := %s; ig_start := %s; ig_end := %s |}",
-				lib.Nat(g.w), lib.Nat(g.j), lib.Nat(g.slot), lib.Z(g.start), lib.Z(g.end)))
+			ingTerms = append(ingTerms, coqIngest(g))
 		}
 	}
 	readTerms := []string{}
@@ -448,8 +485,7 @@ func gateResult(in Input, g ingestRec, rd, final readRec) lib.Result {
 func gateResultN(in Input, gs []ingestRec, rd, final readRec) lib.Result {
 	ings := make([]string, len(gs))
 	for i, g := range gs {
-		ings[i] = fmt.Sprintf("{| ig_w := %s; ig_j := %s; ig_slot := %s; ig_start := %s; ig_end := %s |}",
-			lib.Nat(g.w), lib.Nat(g.j), lib.Nat(g.slot), lib.Z(g.start), lib.Z(g.end))
+		ings[i] = coqIngest(g)
 	}
 	coq := "{| k_stream := " + lib.Str(in.Stream) + "; k_writers := " + lib.Nat(1) + "; k_per_writer := " + lib.Nat(len(gs)) +
 		"; k_same_slot := false; k_cold := true; k_ingests := " + lib.List(ings) + "; k_reads := " + lib.List([]string{coqRead(rd)}) +
@@ -666,6 +702,55 @@ func runGateRestart(in Input) lib.Result {
 	return gateResultN(in, []ingestRec{g0, g1}, rd, final)
 }
 
+// deterministic schedule "a write-back tick inside one Put, between trees.Get and the merge" (the addon loop lies in
+// between): two single-slot uploads into one 100 s bucket; before the second one every tree is evicted, so that the
+// addon lookup of the first slot's tree reloads it through the trees cache's exported FromBytes field; at that moment the
+// bucket's aggregated tree sits in the cache, freshly created and not merged into yet, and the wrapper runs one write-back
+// of the trees cache and waits for it. Put then merges; afterwards everything is evicted and the bucket is rendered:
+// both uploads must be there (Put's trees.Put after the merge is what clears the lfu's persisted mark).
+func runGateWriteBackInPut(in Input) lib.Result {
+	storage.VerifDisablePeriodicTasks()
+	dir, err := os.MkdirTemp("", "agentb-c08-")
+	if err != nil {
+		return lib.Result{Crash: err.Error()}
+	}
+	defer os.RemoveAll(dir)
+	st, err := storage.New(&config.Server{StoragePath: dir, CacheEvictThreshold: 0.99, CacheEvictVolume: 0.3,
+		MaxNodesSerialization: 2048, MaxNodesRender: 2048, BadgerLogLevel: "error"})
+	if err != nil {
+		return lib.Result{Crash: "storage.New: " + err.Error()}
+	}
+	cancel := watchdog("gate-writeback-in-put", 30*time.Second)
+	defer cancel()
+	st.VerifWrapCaches(nil)
+	shared, _ := storage.ParseKey("shared{}")
+	t0 := time.Now()
+	g0 := ingestRec{w: 0, j: 0, slot: 11, start: int64(time.Since(t0))}
+	put(st, shared, 11, ingestProfile(0, 0))
+	g0.end = int64(time.Since(t0))
+	st.VerifEvict("trees", 1.0) // the first slot's tree is on disk only
+	trees := st.VerifCache("trees")
+	orig := trees.FromBytes
+	var ticks int32
+	trees.FromBytes = func(k string, v []byte) (interface{}, error) {
+		if atomic.AddInt32(&ticks, 1) == 1 {
+			trees.WriteBack()    // one write-back tick of the trees cache ...
+			trees.VerifBarrier() // ... whose saves have completed
+		}
+		return orig(k, v)
+	}
+	g1 := ingestRec{w: 0, j: 1, slot: 14, start: int64(time.Since(t0))}
+	put(st, shared, 14, ingestProfile(0, 1))
+	g1.end = int64(time.Since(t0))
+	st.VerifEvict("trees", 1.0)
+	rd := readRange(st, shared, t0, 10, 20) // the aggregated 100 s bucket
+	final := readRange(st, shared, t0, 10, 20)
+	st.Close()
+	res := gateResultN(in, []ingestRec{g0, g1}, rd, final)
+	res.Obs = map[string]interface{}{"reloads_in_put": atomic.LoadInt32(&ticks), "final_common": final.common, "final_uniq": len(final.uniq)}
+	return res
+}
+
 func run(in Input) lib.Result {
 	if in.Procs > 0 {
 		prev := runtime.GOMAXPROCS(in.Procs)
@@ -685,6 +770,9 @@ func run(in Input) lib.Result {
 	}
 	if in.Stream == "dims" {
 		return runDims(in)
+	}
+	if in.Stream == "gate-writeback-in-put" {
+		return runGateWriteBackInPut(in)
 	}
 	if in.Stream == "gate-restart-dimensions" {
 		return runGateRestart(in)
@@ -711,6 +799,10 @@ func gen(r *rand.Rand, idx int, tier string) Input {
 	case 6:
 		in.Stream = "dims"
 		in.Readers = lib.Range(r, 2, 8)
+	case 1, 3:
+		in.Stream = "straddle"
+		in.Writers, in.Readers, in.PerWriter = lib.Range(r, 2, 6), lib.Range(r, 3, 8), lib.Range(r, 3, 6)
+		in.SameSlot = false
 	}
 	return in
 }
